@@ -306,6 +306,51 @@ class BadFirst(S.SeqRule):
         return None
 
 
+class NoEpipeFromReceive(S.SeqRule):
+    """per-state table, `closed` row, receive column, for the framing
+    transports: once the byte stream below is closed every receive answers 0 -
+    never -1/EPIPE (EPIPE is what a *send* on a closed stream reports; the
+    pre-receive flush of a pending frame is such a send)."""
+
+    def __init__(self, prog, root, rule):
+        super().__init__(prog)
+        self.root, self.rule = root, rule
+        self.names = {}
+        self.bad = False
+        self.nneg = 0
+
+    def inline(self, fn, nid, callee):
+        return callee.static and callee.file == self.root.file and callee is not self.root
+
+    def on_call(self, fn, st, nid, callees, exts):
+        self.names.setdefault(nid, set()).add(fn.nodes[nid].get("callee") or "?")
+        return None
+
+    def on_exit(self, fn, st, ret_nid, ret_cls, top):
+        if not top or ret_cls != S.NEG:
+            return
+        self.nneg += 1
+        src, conf, fact = st.errno
+        EPIPE = 32
+        if fact and fact[0] == "eq" and fact[1] != EPIPE:
+            ok = True
+        elif fact and fact[0] == "ne" and EPIPE in fact[1]:
+            ok = True
+        elif isinstance(src, int) and not (self.names.get(src, set()) & {"xcm_tp_socket_send", "send", "SSL_write"}):
+            ok = True       # the failing call was not a write: EPIPE does not arise (sub-socket receive: C06.R2 table of btcp/btls)
+        elif src in ("entry", "assigned") and fact is None:
+            ok = True       # a stored reason (badness_reason) - C06.R3
+        else:
+            ok = False
+        if ok:
+            self.rule.ok("%s: a failing exit cannot carry EPIPE" % self.root.name, "errno facts on the path")
+        elif not self.bad:
+            self.bad = True
+            self.rule.violation("%s:receive-EPIPE" % self.root.name,
+                                "receive can return -1 with errno EPIPE (from flushing a pending frame into a closed stream): after the peer's "
+                                "close every receive must answer 0", loc=fn.loc(ret_nid) if ret_nid is not None else fn.file)
+
+
 def run(ctx):
     P = Program(("libxcm",))
     ctx.analysed = {"units": len(P.units), "functions": len(P.functions)}
@@ -367,6 +412,12 @@ def run(ctx):
             S.run(br, f)
             if not br.viol:
                 r2.ok("%s tests the sticky flag before using the sub-socket" % f.qname, "path exploration")
+        f = t.slots["receive"]
+        r2.instance("%s.receive: closed => 0, never -1/EPIPE" % t.proto)
+        ne = NoEpipeFromReceive(P, f, r2)
+        S.run(ne, f)
+        if ne.nneg < 2:
+            raise Broken("C06.R2: %s: only %d failing exits explored" % (f.name, ne.nneg))
         # the invalid-header contract (bad + EPROTO) is C07.R2's RecvRule
         f = t.slots["receive"]
         rr = c07.RecvRule(P, f, r2)
